@@ -1,6 +1,124 @@
 import ModbusVerif.Lemmas.GoEvalCliScanLemmas
 import ModbusVerif.Props.C20SrcRun
-/- header: TODO -/
+/-
+  C20, source tie of the SCAN / PING functions of cmd/modbus-cli.go — `performBoolScan`,
+  `performRegisterScan`, `performUnitIdScan`, `performPing` (and the helper `decodeString`) — as rendered
+  by the translator (`Gen.gs_cli_performBoolScan`, `gs_cli_performRegisterScan`,
+  `gs_cli_performUnitIdScan`, `gs_cli_performPing`, `gs_cli_decodeString`, regenerated on every run),
+  EVALUATED by `Modbus.GoEval` for ALL outcomes of the client calls. Props/C20SrcRun.lean proves that the
+  run loop of `main` CALLS these functions with (`client`, `o.isCoil` / `o.isHoldingReg` / — /
+  `o.quantity`, `o.duration`) and stops there (`C20R_unmodelled`: "not rendered, not modelled"); this
+  file closes that gap. Helpers: Lemmas/GoEvalCliScanLemmas.lean.
+
+  WHAT THE HELP TEXT (`displayHelp`) DOCUMENTS, verbatim:
+
+      * scan:<type>
+        Perform a modbus "scan" of the modbus type <type>, which can be one of:
+        - "c", "coils",
+        - "di", "discreteInputs",
+        - "hr", "holdingRegisters",
+        - "ir", "inputRegisters",
+        - "s", "sid".
+        [...]
+        Read requests are made over the entire address space (65535 addresses).
+        Adresses for which a non-error response is received are listed, along with the value received.
+        Errors other than Illegal Data Address and Illegal Function are also shown, as they should
+        not happen in sane implementations.
+
+        scan:sid             scans the target for devices.
+
+        Scans all unit IDs (0 to 255) using a single read input register request. Addresses responding
+        positively or with non-timeout errors are shown, while timeouts and gateway timeouts are ignored.
+        [...]
+      * ping:<count>[:interval]
+        Executes <count> modbus reads (1 holding register at address 0x0000), either back to back or
+        separated by [interval] if specified, then prints timing and outcome statistics.
+
+  RESULTS (every theorem: for ALL answers of the device; fuel ≥ an explicit bound, linear in the
+  number of rounds: every loop round costs one unit of depth)
+  0. `C20N_shapes`: the generated terms are the skeletons that are evaluated (`rfl`), no untranslated
+     statement. `C20N_continue_rendering`: `continue` in the three-clause `for` is `addr++; .cont`.
+     `C20N_params`: the parameter names (`Gen.gsParams`).
+  1. `C20N_boolScan` (fuel ≥ 65536 + 14): the run returns; its `client.*` calls are EXACTLY
+     `client.ReadCoil(a)` (`isCoil`) / `client.ReadDiscreteInput(a)` for a = 0, 1, …, 65535 in order, one
+     per address, whatever the outcomes; the printed lines (start; per address nothing / failure line
+     / row; `found` line); the full interleaved log; `count` = number of `nil` answers.
+     `C20N_scan_lines`: which line for which error. The answers are a function
+     `ans : Nat → Val × String` of the ADDRESS (value, error symbol: `"nil"`,
+     `"modbus.ErrIllegalDataAddress"`, `"modbus.ErrIllegalFunction"` or ANY other symbol): since every
+     address is read once, this covers every sequence of outcomes.
+     `C20N_boolScan_u16_diverges`: with `var addr uint16` (term transformer `retype .u32 .u16`) the
+     run ends `outOfFuel` for EVERY fuel and device: `addr <= 0xffff` needs the 32-bit counter.
+  2. `C20N_registerScan`: the same with `client.ReadRegister(a, 0 | 1)`, 0 = `HOLDING_REGISTER` iff
+     `isHoldingReg`, 1 = `INPUT_REGISTER` (`Gen.const_…`).
+  3. `C20N_unitIdScan` (fuel ≥ 256 + 18; answers a function of the SELECTED unit id, the world reads
+     it off the last `client.SetUnitId` of the call log): for u = 0..255 in order `SetUnitId(u)` then
+     ONE `ReadRegister(0, INPUT_REGISTER)`; `ok` line and `countOk` for `nil`, illegal data address,
+     illegal function, illegal data value (a Modbus exception reply of these kinds = "device
+     present"); `ErrRequestTimedOut` / `ErrGWTargetFailedToRespond`: counted, NOTHING printed; any
+     other error: printed with the error, counted as error (`C20N_unit_classes`); unit id 255 is left
+     selected.
+  4. `C20N_ping` (every `count : U16`, every interval, answers and durations functions of the PROBE
+     NUMBER, read off the call log): exactly `count` probes `ReadRegister(0, HOLDING_REGISTER)`
+     (`count = 0`: none); `time.Sleep(interval)` after every probe iff `interval > 0`
+     (`C20N_ping_round`: where); lines and statistics; the three counters add up to `count`.
+  5. `C20N_decodeString`: for every byte list the bytes appended are the input with every byte
+     outside 0x20..0x7e replaced by 0x2e, same length and order.
+  6. `C20N_closes_gap`: `C20R_unmodelled` composed with 1–4: op code 26 / 27 / 28 / 29 ↦ the ONE call
+     `perform…(client, …)` ↦ (entry environment = `Gen.gsParams` zipped with the logged argument
+     values) exactly the requests above; the arm itself makes no client call.
+  7. Sensitivity, variants DERIVED from the generated term by term transformers (`reBound`,
+     `breakOnFail`, `dropPost`, `retype`), small ones run by the kernel (`decide +kernel`, bound 3):
+     `C20N_small_run` (the true term, bound 3: addresses 0..3), `C20N_sensitive_stop_on_error` (stops
+     at the first other error: misses 3), `C20N_sensitive_no_post_small` / `C20N_sensitive_no_post`
+     (`continue` rendered as `.cont` alone, the pre-fix rendering: the first "not there" address is read
+     for ever; the general theorem: `outOfFuel` for EVERY fuel on the full address space),
+     `C20N_sensitive_lt` (`addr < BOUND` misses the last address).
+
+  FINDINGS (behaviour vs. help text; none contradicts "what it does", two are undocumented effects)
+  N1 The help says "the entire address space (65535 addresses)": the code reads 65536 addresses,
+     0..0xffff (`C20N_boolScan`, `C20N_registerScan`): the text is off by one, the scan is complete.
+  N2 `scan:sid` leaves unit id 255 selected (`C20N_unitIdScan`, `lastUnit`): the unit id given by
+     `--unit-id` or an earlier `sid:` is NOT restored, so e.g. `--unit-id 1 scan:sid rh:uint16:0`
+     reads from unit 255. Not documented.
+  N3 `ping:<n>:<interval>` sleeps after EVERY probe, also after the last one (`C20N_ping`: `n` sleeps,
+     not `n - 1`), before the statistics; "separated by [interval]" suggests `n - 1`.
+  N4 `performPing` with `count = 0` sends nothing (`C20N_ping`) and then evaluates
+     `avgRTT / time.Duration(count)`: Go panics (integer divide by zero). Unreachable from the command
+     line: the argument parser refuses `ping:0` ("illegal ping count value", exit 2). The evaluator
+     sees that expression only as an opaque leaf.
+  N5 (observation) unit id scan: a unit answering with another exception (server device failure,
+     busy, gateway path unavailable, …) is SHOWN with the error, as documented, but is counted under
+     "errors", not under "found … devices".
+  No address is skipped or probed twice, no scan stops early, whatever the device answers.
+
+  WHAT IS MODELLED RATHER THAN DERIVED from the generated terms
+  * THE DEVICE. The oracle answers `client.ReadCoil` / `ReadDiscreteInput` / `ReadRegister` with
+    `(value, err)`; `err` is a SYMBOL compared by name (`cmpop` on symbols); the value is any `Val`.
+    `client.SetUnitId`, `fmt.Printf`, `fmt.Println`, `time.Sleep` return nothing; `time.Now` an
+    opaque instant; `time.Since` an arbitrary integer (`time.Duration`). Scans: `GoEval.exec` with the
+    stateless `scanOracle ans`; unit id scan and ping: `GoEval.execW` (the oracle also sees the call
+    log: `execFromW_const`, same evaluator on stateless oracles).
+  * ENTRY ENVIRONMENTS (`entryEnv`): parameters ↦ argument values; the ZERO VALUES of `var count uint`
+    etc. (a `var` declaration without value is not rendered); the package-qualified error constants
+    `modbus.ErrIllegalDataAddress`, … bound to symbols named by their own text (the evaluator's
+    `isConstSym` knows the unqualified names of package modbus only; distinct texts = distinct
+    values, `strConsts_distinct`); string literals and opaque call leaves (`rtt.Round(…)`,
+    `append(dec, b)`, `string(dec)`) bound to symbols named by their text. `nil` is not shadowed.
+  * PRINTING is tied as a call `fmt.Printf` / `fmt.Println` with the FORMAT LITERAL and the EVALUATED
+    arguments, in order; Go's rendering of `%04x`, `%-5v`, `%v` is not modelled. The statistics
+    line's format is the concatenation of two literals: string `+` is not modelled, the argument
+    evaluates to `unk`.
+  * `time.Sleep` is a call with the evaluated duration; no clock is modelled.
+  * `decodeString`: the leaf `in[idx]` is keyed by its text; the probe `in[idx] := #in[idx](idx)`
+    (`withProbe`, removed again by `stripProbe`, `C20N_decodeString`) re-binds it from the byte list
+    and the VALUE of `idx` before every round (`unk` outside the list, never read). `append` and
+    `string` are opaque: what is proved is WHICH byte `b` holds at each `dec = append(dec, b)`,
+    read off the sequence of bindings of the final environment (`historyP`: `Env.write` only prepends).
+  * COMPOSITION `main` → callee (`C20N_closes_gap`): a call is opaque for the evaluator; the callee's
+    run starts from `entryEnv` built from `Gen.gsParams` and the argument values `main` logged.
+  * `uint` is 64 bits; `len(in) < 2^63` (a Go `int`).
+-/
 set_option linter.unusedSimpArgs false
 set_option linter.unusedVariables false
 set_option maxRecDepth 100000
@@ -8,21 +126,104 @@ set_option maxRecDepth 100000
 namespace Modbus.Props.C20
 open Modbus Modbus.Gen Modbus.GoEval Modbus.GoEval.CliScan
 
-/-! ## 1. `performBoolScan` -/
+/-! ## 0. the terms, the entry environments -/
 
-/-- a string literal / constant leaf bound to the symbol named by its own text -/
+/-- the generated terms ARE the skeletons evaluated below (`rfl`): a scan function is `regType`
+    choice, start line, `addr = 0`, `loop head`, `found` line, `return`; `performPing` and
+    `performUnitIdScan` are `pingWith (.loop pingHead)` / `unitWith (.loop unitHead)` (the loop bodies
+    are the generated text, cut out by position); none has an untranslated statement -/
+theorem C20N_shapes :
+    gs_cli_performBoolScan = scanWith "isCoil" nameCoil nameDI .u32 (boolHead 65535) ∧
+    gs_cli_performRegisterScan = scanWith "isHoldingReg" nameHR nameIR .u32 (regHead 65535) ∧
+    gs_cli_performUnitIdScan = unitWith (.loop unitHead) ∧
+    gs_cli_performPing = pingWith (.loop pingHead) ∧
+    gs_cli_decodeString = dsWith (.loop dsHead) ∧
+    opaques gs_cli_performBoolScan = [] ∧ opaques gs_cli_performRegisterScan = [] ∧
+    opaques gs_cli_performUnitIdScan = [] ∧ opaques gs_cli_performPing = [] ∧
+    opaques gs_cli_decodeString = [] :=
+  ⟨boolScan_shape, regScan_shape, unitScan_shape, ping_shape, decodeString_shape, rfl, rfl, rfl, rfl, rfl⟩
+
+/-- `continue` inside the three-clause `for` is rendered as the post statement `addr++` followed by
+    `.cont` (Go runs the post statement before the next round) -/
+theorem C20N_continue_rendering :
+    skipPost .u32 = .seq (.assign "addr" (.bin "+" .u32 (.var "addr" .u32) (.lit 1 .u32))) .cont ∧
+    boolHead 65535 = scanHead .u32 "<=" 65535 (boolCall .u32) (boolFound .u32) (skipPost .u32) (failPrint .u32) :=
+  ⟨rfl, rfl⟩
+
+/-- the parameter names of a rendered function (`Gen.gsParams`) -/
+def paramsOf (fn : String) : List String := (gsParams.lookup fn).getD []
+
+theorem C20N_params :
+    paramsOf "cli.performBoolScan" = ["client", "isCoil"] ∧
+    paramsOf "cli.performRegisterScan" = ["client", "isHoldingReg"] ∧
+    paramsOf "cli.performUnitIdScan" = ["client"] ∧
+    paramsOf "cli.performPing" = ["client", "count", "interval"] ∧
+    paramsOf "cli.decodeString" = ["in"] := by
+  refine ⟨?_, ?_, ?_, ?_, ?_⟩ <;> decide +kernel
+
+/-- a string literal / constant / opaque leaf bound to the symbol named by its own text -/
 def selfSym (t : String) : String × GoEval.Val := (t, .sym t)
 
-/-- entry environment of `performBoolScan(client, isCoil)`: the parameters (`Gen.gsParams`), the zero
-    value of `var count uint`, the two error constants, the string literals -/
+/-- ENTRY ENVIRONMENT of a callee: its parameters bound to the argument values, then its locals -/
+def entryEnv (fn : String) (args : List GoEval.Val) (locals : Env) : Env :=
+  (paramsOf fn).zip args ++ locals
+
+/-- locals / constants of `performBoolScan`: the zero value of `var count uint`, the two error
+    constants of package modbus, the string literals -/
+def boolScanLocals : Env :=
+  [("count", .int 0), selfSym symIDA, selfSym symIFN, selfSym nameCoil, selfSym nameDI, selfSym fmtStart,
+   selfSym fmtFail, selfSym fmtBoolRow, selfSym fmtFound]
+def regScanLocals : Env :=
+  [("count", .int 0), selfSym symIDA, selfSym symIFN, selfSym nameHR, selfSym nameIR, selfSym fmtStart,
+   selfSym fmtFail, selfSym fmtRegRow, selfSym fmtFound]
+def unitScanLocals : Env :=
+  [("countOk", .int 0), ("countErr", .int 0), ("countTimeout", .int 0), ("countGWTimeout", .int 0),
+   selfSym symIDA, selfSym symIFN, selfSym symIDV, selfSym symRTO, selfSym symGWT, selfSym fmtUnitStart,
+   selfSym fmtUnitOk, selfSym fmtUnitErr, selfSym fmtUnitFound]
+def pingLocals : Env :=
+  [("okCount", .int 0), ("timeoutCount", .int 0), ("otherErrCount", .int 0), ("avgRTT", .int 0),
+   ("minRTT", .int 0), ("maxRTT", .int 0), selfSym symIDA, selfSym symIFN, selfSym symRTO, selfSym symGWT,
+   selfSym fmtPingStart, selfSym fmtPingOk, selfSym fmtPingTo, selfSym fmtPingErr, selfSym fmtPingStat1,
+   selfSym fmtPingStat2, selfSym fmtPingRtt, selfSym leafRtt, selfSym leafTotal, selfSym leafMin,
+   selfSym leafAvg, selfSym leafMax]
+
 def boolScanEnv (client : GoEval.Val) (isCoil : Bool) : Env :=
-  [("client", client), ("isCoil", .ofBool isCoil), ("count", .int 0), selfSym symIDA, selfSym symIFN,
-   selfSym nameCoil, selfSym nameDI, selfSym fmtStart, selfSym fmtFail, selfSym fmtBoolRow, selfSym fmtFound]
+  entryEnv "cli.performBoolScan" [client, .ofBool isCoil] boolScanLocals
+def regScanEnv (client : GoEval.Val) (isHoldingReg : Bool) : Env :=
+  entryEnv "cli.performRegisterScan" [client, .ofBool isHoldingReg] regScanLocals
+def unitScanEnv (client : GoEval.Val) : Env := entryEnv "cli.performUnitIdScan" [client] unitScanLocals
+def pingEnv (client : GoEval.Val) (count : U16) (interval : Int) : Env :=
+  entryEnv "cli.performPing" [client, .int count.toNat, .int interval] pingLocals
+/-- `decodeString(in)`: `len(in)`, and the two opaque call leaves (`append(dec, b)`, `string(dec)`) -/
+def decodeEnv (bs : Bytes) : Env :=
+  [("len(in)", .int bs.length), selfSym "append(dec, b)", selfSym "string(dec)"]
 
 theorem boolScanEnv_pre (client : GoEval.Val) (isCoil : Bool) :
     ScanPre "isCoil" nameCoil nameDI fmtBoolRow isCoil (boolScanEnv client isCoil) := by
   constructor <;> rfl
+theorem regScanEnv_pre (client : GoEval.Val) (isH : Bool) :
+    ScanPre "isHoldingReg" nameHR nameIR fmtRegRow isH (regScanEnv client isH) := by
+  constructor <;> rfl
+theorem unitScanEnv_pre (client : GoEval.Val) : UnitConst (unitScanEnv client) ∧ UnitZero (unitScanEnv client) := by
+  constructor <;> constructor <;> rfl
+theorem pingEnv_pre (client : GoEval.Val) (count : U16) (d : Int) :
+    PingConst count.toNat d (pingEnv client count d) ∧ PingZero (pingEnv client count d) := by
+  constructor <;> constructor <;> rfl
 
+/-! ## 1. `performBoolScan` -/
+
+/-- **BOOL SCAN.** For EVERY answer function `ans` (address ↦ (value, error symbol)), both values of
+    `isCoil`, every fuel ≥ 65536 + 14, `performBoolScan(client, isCoil)`
+    * returns;
+    * its calls of methods of `client` are EXACTLY, in order, `client.ReadCoil(a)` (`isCoil`) resp.
+      `client.ReadDiscreteInput(a)` for a = 0, 1, …, 65535: one request per address, every address
+      exactly once, whatever the outcomes (no error stops, skips or repeats anything);
+    * what it prints (`fmt.Printf` calls: format literal, evaluated arguments): the start line with
+      `regType`; per address nothing (illegal data address / illegal function), the failure line with
+      `regType`, the address and the error (any other error), the row with the address (twice) and the
+      value (`nil`); the `found` line with `count` and `regType`;
+    * the whole call log is the interleaving `scanLog … boolRoundCalls` (request, then its line);
+    * `count` = number of addresses answered with `nil` (`nilCount`). -/
 theorem C20N_boolScan (ans : Nat → GoEval.Val × String) (client : GoEval.Val) (isCoil : Bool) (fuel : Nat)
     (hf : 65536 + 14 ≤ fuel) :
     let r := exec (scanOracle ans) fuel gs_cli_performBoolScan (boolScanEnv client isCoil)
@@ -32,7 +233,8 @@ theorem C20N_boolScan (ans : Nat → GoEval.Val × String) (client : GoEval.Val)
     printed r.calls = scanLog rt ((List.range 65536).flatMap (fun (a : Nat) =>
       roundPrint rt [.sym fmtBoolRow, .int a, .int a, (ans a).1] a (ans a).2)) (nilCount ans 65536) ∧
     r.calls = scanLog rt ((List.range 65536).flatMap (boolRoundCalls ans isCoil rt)) (nilCount ans 65536) ∧
-    Env.read? r.env "count" = some (.int (nilCount ans 65536 : Nat)) := by
+    Env.read? r.env "count" = some (.int (nilCount ans 65536 : Nat)) ∧
+    nilCount ans 65536 = (List.range 65536).countP (fun a => decide ((ans a).2 = "nil")) := by
   intro r rt
   obtain ⟨env', h0, hc⟩ := bool_run ans 65535 (by omega) isCoil _ (boolScanEnv_pre client isCoil)
   have h : execW (fun _ => scanOracle ans) 65550 (scanWith "isCoil" nameCoil nameDI .u32 (boolHead 65535))
@@ -45,10 +247,361 @@ theorem C20N_boolScan (ans : Nat → GoEval.Val × String) (client : GoEval.Val)
     rw [execW_mono _ 65550 _ _ _ hf (by rw [h]; exact fun x => nomatch x)]
     exact h
   rw [hr]
-  refine ⟨rfl, ?_, ?_, rfl, hc⟩
+  refine ⟨rfl, ?_, ?_, rfl, hc, rfl⟩
   · show requests (scanLog _ _ _) = _
     rw [requests_scanLog, bool_requests]
   · show printed (scanLog _ _ _) = _
     rw [printed_scanLog, bool_printed]
 
+/-- what the lines are, spelled out: nothing / failure line / row -/
+theorem C20N_scan_lines (rt : GoEval.Val) (row : List GoEval.Val) (a : Int) (e : String) :
+    (e = symIDA ∨ e = symIFN → roundPrint rt row a e = []) ∧
+    (e ≠ symIDA → e ≠ symIFN → e ≠ "nil" →
+      roundPrint rt row a e = [("fmt.Printf", [.sym fmtFail, rt, .int a, .sym e])]) ∧
+    (e = "nil" → roundPrint rt row a e = [("fmt.Printf", row)]) ∧
+    regTypeOf true nameCoil nameDI = .sym nameCoil ∧ regTypeOf false nameCoil nameDI = .sym nameDI ∧
+    regTypeOf true nameHR nameIR = .sym nameHR ∧ regTypeOf false nameHR nameIR = .sym nameIR := by
+  refine ⟨?_, ?_, ?_, rfl, rfl, rfl, rfl⟩
+  · intro h
+    have : isNotThere e = true := by rcases h with h | h <;> subst h <;> decide
+    simp only [roundPrint, this, ↓reduceIte]
+  · intro h1 h2 h3
+    have : isNotThere e = false := by simp [isNotThere, h1, h2]
+    simp only [roundPrint, this, Bool.false_eq_true, ↓reduceIte, ne_eq, h3, not_false_eq_true]
+  · intro h
+    subst h
+    simp only [roundPrint, isNotThere_nil, Bool.false_eq_true, ↓reduceIte, ne_eq, not_true_eq_false]
+
+/-- THE COUNTER DOES NOT WRAP BECAUSE IT IS 32 BITS WIDE. The same function with `var addr uint16`
+    (`retype .u32 .u16` of the generated term: every `uint32` node becomes `uint16`) NEVER returns:
+    `addr <= 0xffff` is then always true and `addr++` wraps 65535 ↦ 0. For every device, every fuel,
+    the run ends `outOfFuel`. -/
+theorem C20N_boolScan_u16_diverges (ans : Nat → GoEval.Val × String) (client : GoEval.Val) (isCoil : Bool)
+    (fuel : Nat) :
+    (exec (scanOracle ans) fuel (retype .u32 .u16 gs_cli_performBoolScan) (boolScanEnv client isCoil)).how
+      = .outOfFuel := by
+  have pre := boolScanEnv_pre client isCoil
+  rw [retype_boolScan]
+  show (execFrom _ fuel _ _ []).how = _
+  rw [← execFromW_const]
+  exact scanWith_diverges (scanWorld ans) (scanWorld_printf ans) "isCoil" nameCoil nameDI .u16 boolHead16 isCoil _
+    pre.flag pre.nameT pre.nameE pre.fStart
+    (fun n => bool16_loop_diverges ans isCoil _ _ _ (pre.entry (by decide) (by decide) _) n) fuel
+
+/-! ## 2. `performRegisterScan` -/
+
+/-- **REGISTER SCAN.** As `C20N_boolScan`: the requests are EXACTLY `client.ReadRegister(a, regType)`
+    for a = 0..65535 in order, `regType` = 0 = `modbus.HOLDING_REGISTER` iff `isHoldingReg`, else
+    1 = `modbus.INPUT_REGISTER`; the row prints the address twice and the value twice. -/
+theorem C20N_registerScan (ans : Nat → GoEval.Val × String) (client : GoEval.Val) (isHoldingReg : Bool)
+    (fuel : Nat) (hf : 65536 + 14 ≤ fuel) :
+    let r := exec (scanOracle ans) fuel gs_cli_performRegisterScan (regScanEnv client isHoldingReg)
+    let rt := regTypeOf isHoldingReg nameHR nameIR
+    r.how = .returned ∧
+    requests r.calls = (List.range 65536).map (fun (a : Nat) =>
+      ("client.ReadRegister", [GoEval.Val.int a, GoEval.Val.int (regTypeArg isHoldingReg)])) ∧
+    printed r.calls = scanLog rt ((List.range 65536).flatMap (fun (a : Nat) =>
+      roundPrint rt [.sym fmtRegRow, .int a, .int a, (ans a).1, (ans a).1] a (ans a).2)) (nilCount ans 65536) ∧
+    r.calls = scanLog rt ((List.range 65536).flatMap (regRoundCalls ans isHoldingReg rt)) (nilCount ans 65536) ∧
+    Env.read? r.env "count" = some (.int (nilCount ans 65536 : Nat)) ∧
+    regTypeArg true = const_HOLDING_REGISTER ∧ regTypeArg false = const_INPUT_REGISTER := by
+  intro r rt
+  obtain ⟨env', h0, hc⟩ := reg_run ans 65535 (by omega) isHoldingReg _ (regScanEnv_pre client isHoldingReg)
+  have h : execW (fun _ => scanOracle ans) 65550 (scanWith "isHoldingReg" nameHR nameIR .u32 (regHead 65535))
+      (regScanEnv client isHoldingReg) = ⟨env', .returned,
+        scanLog rt ((List.range 65536).flatMap (regRoundCalls ans isHoldingReg rt)) (nilCount ans 65536)⟩ := h0
+  have hr : r = ⟨env', .returned, scanLog rt ((List.range 65536).flatMap (regRoundCalls ans isHoldingReg rt))
+      (nilCount ans 65536)⟩ := by
+    show exec _ fuel _ _ = _
+    rw [← execW_const, regScan_shape]
+    rw [execW_mono _ 65550 _ _ _ hf (by rw [h]; exact fun x => nomatch x)]
+    exact h
+  rw [hr]
+  refine ⟨rfl, ?_, ?_, rfl, hc, rfl, rfl⟩
+  · show requests (scanLog _ _ _) = _
+    rw [requests_scanLog, reg_requests]
+  · show printed (scanLog _ _ _) = _
+    rw [printed_scanLog, reg_printed]
+
+/-! ## 3. `performUnitIdScan` -/
+
+/-- **UNIT ID SCAN.** For EVERY answer function `ans` (selected unit id ↦ (value, error symbol)), every
+    fuel ≥ 256 + 18, `performUnitIdScan(client)`
+    * returns;
+    * its calls of methods of `client` are EXACTLY, for u = 0, 1, …, 255 in order:
+      `client.SetUnitId(u)`, then ONE probe `client.ReadRegister(0, 1)` (1 = `modbus.INPUT_REGISTER`);
+    * prints `starting unit id scan`; per unit id: the `ok` line (id twice) when the probe returned
+      `nil`, illegal data address, illegal function or illegal data value (`unitPresent`: an
+      exception reply of one of these three kinds counts as "device present"); NOTHING for
+      `ErrRequestTimedOut` and for `ErrGWTargetFailedToRespond`; the line with the id (twice) and
+      the error for anything else; finally the `found` line with the four counters: present,
+      other errors, request timeouts, gateway timeouts (`unitCount`, classes 0 / 3 / 1 / 2);
+    * leaves unit id 255 selected (`lastUnit`): the scan does not restore the unit id. -/
+theorem C20N_unitIdScan (ans : Nat → GoEval.Val × String) (client : GoEval.Val) (fuel : Nat)
+    (hf : 256 + 18 ≤ fuel) :
+    let r := execW (unitWorld ans) fuel gs_cli_performUnitIdScan (unitScanEnv client)
+    r.how = .returned ∧
+    requests r.calls = (List.range 256).flatMap (fun (u : Nat) =>
+      [("client.SetUnitId", [GoEval.Val.int u]), ("client.ReadRegister", [GoEval.Val.int 0, GoEval.Val.int 1])]) ∧
+    printed r.calls =
+      ("fmt.Println", [.sym fmtUnitStart]) :: (List.range 256).flatMap (fun u => unitPrint (ans u).2 u) ++
+        [("fmt.Printf", [.sym fmtUnitFound, .int (unitCount ans 0 256), .int (unitCount ans 3 256),
+          .int (unitCount ans 1 256), .int (unitCount ans 2 256)])] ∧
+    r.calls = unitLog ((List.range 256).flatMap (fun u => unitRoundCalls (ans u).2 u))
+      (unitCount ans 0 256) (unitCount ans 3 256) (unitCount ans 1 256) (unitCount ans 2 256) ∧
+    lastUnit r.calls = .int 255 ∧
+    (1 : Int) = const_INPUT_REGISTER := by
+  intro r
+  obtain ⟨hc, hz⟩ := unitScanEnv_pre client
+  obtain ⟨env', h⟩ := unit_run ans _ hc hz
+  have hr : r = ⟨env', .returned, unitLog ((List.range 256).flatMap (fun u => unitRoundCalls (ans u).2 u))
+      (unitCount ans 0 256) (unitCount ans 3 256) (unitCount ans 1 256) (unitCount ans 2 256)⟩ := by
+    show execW _ fuel _ _ = _
+    rw [unitScan_shape, execW_mono _ (256 + 18) _ _ _ hf (by rw [h]; exact fun x => nomatch x)]
+    exact h
+  rw [hr]
+  exact ⟨rfl, unit_requests ans 256 _ _ _ _, unit_printed ans 256 _ _ _ _, rfl,
+    unit_lastUnit ans 255 _ _ _ _, rfl⟩
+
+/-- which outcomes count as what, spelled out -/
+theorem C20N_unit_classes (e : String) (u : Nat) :
+    (e = "nil" ∨ e = symIDA ∨ e = symIFN ∨ e = symIDV →
+      unitClass e = 0 ∧ unitPrint e u = [("fmt.Printf", [.sym fmtUnitOk, .int u, .int u])]) ∧
+    (e = symRTO → unitClass e = 1 ∧ unitPrint e u = []) ∧
+    (e = symGWT → unitClass e = 2 ∧ unitPrint e u = []) ∧
+    (¬ (e = "nil" ∨ e = symIDA ∨ e = symIFN ∨ e = symIDV) → e ≠ symRTO → e ≠ symGWT →
+      unitClass e = 3 ∧ unitPrint e u = [("fmt.Printf", [.sym fmtUnitErr, .int u, .int u, .sym e])]) := by
+  refine ⟨?_, ?_, ?_, ?_⟩
+  · intro h
+    have hp : unitPresent e := h
+    simp only [unitClass, unitPrint, hp, ↓reduceIte, and_self]
+  · intro h; subst h
+    simp only [unitClass, unitPrint, not_present_RTO, ↓reduceIte, and_self]
+  · intro h; subst h
+    simp only [unitClass, unitPrint, not_present_GWT, show ¬ symGWT = symRTO by decide, ↓reduceIte, and_self]
+  · intro h h1 h2
+    have hp : ¬ unitPresent e := h
+    simp only [unitClass, unitPrint, hp, h1, h2, ↓reduceIte, and_self]
+
+/-! ## 4. `performPing` -/
+
+/-- **PING.** For EVERY `count : uint16`, every `interval`, every answer function `ans`
+    (probe number ↦ (value, error symbol)) and durations `rtt`, every fuel ≥ count + 25,
+    `performPing(client, count, interval)`
+    * returns;
+    * its calls of methods of `client` are EXACTLY `count` probes
+      `client.ReadRegister(0x0000, 0)` (0 = `modbus.HOLDING_REGISTER`), nothing else: `count = 0` ⇒ no
+      request at all;
+    * `time.Sleep(interval)` is called after EVERY probe (after its line; also after the last one) iff
+      `interval > 0`: `count` sleeps, none for `interval ≤ 0`;
+    * the whole log: the `sending` line with `count`, `time.Now()`, per probe `time.Now()`, the probe,
+      `time.Since(ts)`, its line (`ok` with the sequence number k+1 for `nil` / illegal data address /
+      illegal function; `timeout` with the error for `ErrRequestTimedOut` /
+      `ErrGWTargetFailedToRespond`; `error` with the error otherwise), the sleep; then the statistics
+      line with `count`, the numbers of replies, transmission errors, timeouts (`pingOkCount`,
+      `pingErrCount`, `pingToCount`: they add up to `count`) and the `rtt` line. -/
+theorem C20N_ping (ans : Nat → GoEval.Val × String) (rtt : Nat → Int) (client : GoEval.Val) (count : U16)
+    (interval : Int) (fuel : Nat) (hf : count.toNat + 25 ≤ fuel) :
+    let n := count.toNat
+    let r := execW (pingWorld ans rtt) fuel gs_cli_performPing (pingEnv client count interval)
+    r.how = .returned ∧
+    requests r.calls = List.replicate n ("client.ReadRegister", [.int 0, .int 0]) ∧
+    sleeps r.calls = (if interval > 0 then List.replicate n ("time.Sleep", [.int interval]) else []) ∧
+    r.calls = pingLog n ((List.range n).flatMap (pingRoundCalls ans interval))
+      (pingOkCount ans n) (pingErrCount ans n) (pingToCount ans n) ∧
+    printed r.calls =
+      ("fmt.Printf", [.sym fmtPingStart, .int n]) :: (List.range n).map (fun k => pingLine (ans k).2 k) ++
+        [("fmt.Printf", [.unk, .int n, .int (pingOkCount ans n), .int (pingErrCount ans n),
+            .int (pingToCount ans n), .sym leafTotal]),
+         ("fmt.Printf", [.sym fmtPingRtt, .sym leafMin, .sym leafAvg, .sym leafMax])] ∧
+    pingOkCount ans n + pingErrCount ans n + pingToCount ans n = n ∧
+    (0 : Int) = const_HOLDING_REGISTER := by
+  intro n r
+  have hn : n ≤ 65535 := by have := count.isLt; omega
+  obtain ⟨hc, hz⟩ := pingEnv_pre client count interval
+  obtain ⟨env', h⟩ := ping_run ans rtt n hn interval _ hc hz
+  have hr : r = ⟨env', .returned, pingLog n ((List.range n).flatMap (pingRoundCalls ans interval))
+      (pingOkCount ans n) (pingErrCount ans n) (pingToCount ans n)⟩ := by
+    show execW _ fuel _ _ = _
+    rw [ping_shape, execW_mono _ (n + 25) _ _ _ hf (by rw [h]; exact fun x => nomatch x)]
+    exact h
+  rw [hr]
+  refine ⟨rfl, ping_requests ans interval n _ _ _, ping_sleeps ans interval n _ _ _, rfl,
+    ping_printed ans interval n _ _ _, pingCount_sum ans n, rfl⟩
+
+/-- where exactly the sleep is: the calls of one round -/
+theorem C20N_ping_round (ans : Nat → GoEval.Val × String) (d : Int) (k : Nat) :
+    pingRoundCalls ans d k =
+      [("time.Now", []), ("client.ReadRegister", [.int 0, .int 0]), ("time.Since", [.sym "time.Now()"]),
+       pingLine (ans k).2 k] ++ (if d > 0 then [("time.Sleep", [.int d])] else []) := rfl
+
+/-! ## 5. `decodeString` -/
+
+/-- **DECODE STRING.** For EVERY byte list (`len(in)` < 2^63), every fuel ≥ len + 11: the run of
+    `decodeString` (the generated term with the leaf `in[idx]` re-bound by the removable probe,
+    `stripProbe` gives the generated term back) returns; the assignments to `b` and `dec` are, for
+    every input byte in order, `b = sanitize byte` then `dec = append(dec, b)`: the appended bytes
+    are the input with every byte outside 0x20..0x7e replaced by `.` (0x2e), same length, same
+    order; finally `out = string(dec)`; the indexes probed are 0..len (the last probe is the one of
+    the exit round; its value is never read). -/
+theorem C20N_decodeString (bs : Bytes) (hn : bs.length < 2^63) (fuel : Nat) (hf : bs.length + 11 ≤ fuel) :
+    let r := exec (decodeOracle bs) fuel dsGs (decodeEnv bs)
+    dsGs = withProbe "in[idx]" "#in[idx]" "idx" gs_cli_decodeString ∧
+    stripProbe "#in[idx]" dsGs = gs_cli_decodeString ∧
+    r.how = .returned ∧
+    historyP isBD r.env = bs.flatMap (fun x =>
+      [("b", GoEval.Val.int ((sanitize x).toNat : Nat)), ("dec", GoEval.Val.sym "append(dec, b)")]) ∧
+    ((historyP isBD r.env).filter (fun p => p.1 == "b")).map (·.2) =
+      (bs.map sanitize).map (fun x => GoEval.Val.int (x.toNat : Nat)) ∧
+    (bs.map sanitize).length = bs.length ∧
+    (∀ x : Byte, sanitize x = if 0x20 ≤ x.toNat ∧ x.toNat ≤ 0x7e then x else 0x2e) ∧
+    Env.read? r.env "out" = some (.sym "string(dec)") ∧
+    r.calls = (List.range (bs.length + 1)).map dsProbeCall := by
+  intro r
+  obtain ⟨env', h, hh, ho⟩ := ds_run bs hn (.sym "append(dec, b)") (decodeEnv bs) rfl rfl
+  have hr : r = ⟨env', .returned, (List.range (bs.length + 1)).map dsProbeCall⟩ := by
+    show exec _ fuel _ _ = _
+    rw [← execW_const, execW_mono _ (bs.length + 11) _ _ _ hf (by rw [h]; exact fun x => nomatch x)]
+    exact h
+  rw [hr]
+  have hh' : historyP isBD env' = bs.flatMap (fun x =>
+      [("b", GoEval.Val.int ((sanitize x).toNat : Nat)), ("dec", GoEval.Val.sym "append(dec, b)")]) := by
+    rw [hh]; rfl
+  refine ⟨rfl, strip_dsGs, rfl, hh', ?_, by simp, fun _ => rfl, ho, rfl⟩
+  show (List.filter _ (historyP isBD env')).map _ = _
+  rw [hh']
+  clear hh' hh ho h hr r hf hn
+  induction bs with
+  | nil => rfl
+  | cons x rest ih =>
+    simp only [List.flatMap_cons, List.cons_append, List.nil_append, List.filter_cons, List.map_cons] at ih ⊢
+    simpa using ih
+
+/-! ## 6. the gap of `C20R_unmodelled` closed -/
+
+/-- **THE TOOL'S SCAN AND PING OPERATIONS.** `C20R_arm` / `C20R_unmodelled` (Props/C20SrcRun.lean): the
+    arm of the run loop selected by op code 26 / 27 / 28 / 29 (`scanBools`, `scanRegisters`,
+    `scanUnitId`, `ping`) makes ONE call, `performBoolScan(client, o.isCoil)` /
+    `performRegisterScan(client, o.isHoldingReg)` / `performUnitIdScan(client)` /
+    `performPing(client, o.quantity, o.duration)`, and no client call of its own. The generated
+    callee, entered with its parameters (`Gen.gsParams`) bound to THOSE argument values, issues
+    exactly: 65536 reads `client.ReadCoil(a)` resp. `client.ReadDiscreteInput(a)`, a = 0..65535;
+    65536 reads `client.ReadRegister(a, 0 | 1)`; 256 × (`SetUnitId(u)`, `ReadRegister(0, 1)`);
+    `o.quantity` × `ReadRegister(0, 0)` — whatever the device answers. -/
+theorem C20N_closes_gap (g : GoOp) (env : Env) (e : String) (n : Int) (x : GoEval.Val)
+    (ans : Nat → GoEval.Val × String) (rtt : Nat → Int) (fuel : Nat) (hf : 65536 + 24 ≤ fuel) :
+    (∃ args, armNew { g with op := 26 } env e n x = [("performBoolScan", args)] ∧
+      requests (exec (scanOracle ans) fuel gs_cli_performBoolScan
+          (entryEnv "cli.performBoolScan" args boolScanLocals)).calls =
+        (List.range 65536).map (fun (a : Nat) => (boolCallee g.isCoil, [GoEval.Val.int a]))) ∧
+    (∃ args, armNew { g with op := 27 } env e n x = [("performRegisterScan", args)] ∧
+      requests (exec (scanOracle ans) fuel gs_cli_performRegisterScan
+          (entryEnv "cli.performRegisterScan" args regScanLocals)).calls =
+        (List.range 65536).map (fun (a : Nat) =>
+          ("client.ReadRegister", [GoEval.Val.int a, GoEval.Val.int (regTypeArg g.isHoldingReg)]))) ∧
+    (∃ args, armNew { g with op := 28 } env e n x = [("performUnitIdScan", args)] ∧
+      requests (execW (unitWorld ans) fuel gs_cli_performUnitIdScan
+          (entryEnv "cli.performUnitIdScan" args unitScanLocals)).calls =
+        (List.range 256).flatMap (fun (u : Nat) =>
+          [("client.SetUnitId", [GoEval.Val.int u]),
+           ("client.ReadRegister", [GoEval.Val.int 0, GoEval.Val.int 1])])) ∧
+    (∃ args, armNew { g with op := 29 } env e n x = [("performPing", args)] ∧
+      requests (execW (pingWorld ans rtt) fuel gs_cli_performPing
+          (entryEnv "cli.performPing" args pingLocals)).calls =
+        List.replicate g.quantity.toNat ("client.ReadRegister", [.int 0, .int 0])) ∧
+    (∀ k, 26 ≤ k → k ≤ 29 → clientCalls (armNew { g with op := k } env e n x) = []) := by
+  obtain ⟨_, _, _, h26, h27, h28, h29⟩ := C20R_unmodelled g env e n x
+  refine ⟨⟨_, h26, ?_⟩, ⟨_, h27, ?_⟩, ⟨_, h28, ?_⟩, ⟨_, h29, ?_⟩, ?_⟩
+  · exact (C20N_boolScan ans (.sym "client") g.isCoil fuel (by omega)).2.1
+  · exact (C20N_registerScan ans (.sym "client") g.isHoldingReg fuel (by omega)).2.1
+  · exact (C20N_unitIdScan ans (.sym "client") fuel (by omega)).2.1
+  · have hq := g.quantity.isLt
+    exact (C20N_ping ans rtt (.sym "client") g.quantity g.duration fuel (by omega)).2.1
+  · intro k h1 h2
+    have : k = 26 ∨ k = 27 ∨ k = 28 ∨ k = 29 := by omega
+    rcases this with rfl | rfl | rfl | rfl <;> rfl
+
+/-! ## 7. sensitivity -/
+
+/-- a small device: address 0 and 3 answer, 1 does not exist, 2 times out -/
+def tinyAns : Nat → GoEval.Val × String := fun a =>
+  if a = 1 then (.unk, symIDA) else if a = 2 then (.unk, symRTO) else (.int 1, "nil")
+
+def rc (a : Nat) : String × List GoEval.Val := ("client.ReadCoil", [.int a])
+
+/-- THE TRUE TERM with the bound `0xffff` replaced by 3 (`reBound`, a term transformer; `reBound 65535`
+    is the identity on it), run by the kernel: addresses 0, 1, 2, 3, each once; nothing printed for
+    1, the failure line for 2, rows for 0 and 3; found 2 -/
+theorem C20N_small_run :
+    let r := exec (scanOracle tinyAns) 40 (reBound 3 "<=" gs_cli_performBoolScan) (boolScanEnv (.sym "client") true)
+    r.how = .returned ∧ requests r.calls = [rc 0, rc 1, rc 2, rc 3] ∧
+    printed r.calls =
+      [("fmt.Printf", [.sym fmtStart, .sym nameCoil]),
+       ("fmt.Printf", [.sym fmtBoolRow, .int 0, .int 0, .int 1]),
+       ("fmt.Printf", [.sym fmtFail, .sym nameCoil, .int 2, .sym symRTO]),
+       ("fmt.Printf", [.sym fmtBoolRow, .int 3, .int 3, .int 1]),
+       ("fmt.Printf", [.sym fmtFound, .int 2, .sym nameCoil])] ∧
+    reBound 65535 "<=" gs_cli_performBoolScan = gs_cli_performBoolScan := by
+  refine ⟨?_, ?_, ?_, reBound_id.1⟩ <;> decide +kernel
+
+/-- a scan that STOPS at the first error other than the two "not there" errors (`breakOnFail`)
+    misses address 3 -/
+theorem C20N_sensitive_stop_on_error :
+    let r := exec (scanOracle tinyAns) 40 (breakOnFail (reBound 3 "<=" gs_cli_performBoolScan))
+      (boolScanEnv (.sym "client") true)
+    r.how = .returned ∧ requests r.calls = [rc 0, rc 1, rc 2] ∧
+    requests r.calls ≠ [rc 0, rc 1, rc 2, rc 3] := by
+  refine ⟨?_, ?_, ?_⟩ <;> decide +kernel
+
+/-- `continue` WITHOUT the post statement (`dropPost`: the rendering before the fix of the
+    translator): at the first "not there" address (1) the counter is not advanced, the same address
+    is read again and again, the run is out of fuel (here 60; `C20N_sensitive_no_post`: any fuel) -/
+theorem C20N_sensitive_no_post_small :
+    let r := exec (scanOracle tinyAns) 60 (dropPost (reBound 3 "<=" gs_cli_performBoolScan))
+      (boolScanEnv (.sym "client") true)
+    r.how = .outOfFuel ∧ (requests r.calls).take 5 = [rc 0, rc 1, rc 1, rc 1, rc 1] ∧
+    (requests r.calls).all (fun c => c == rc 0 || c == rc 1) = true := by
+  refine ⟨?_, ?_, ?_⟩ <;> decide +kernel
+
+/-- the same for the full address space, EVERY device with at least one address answered with illegal
+    data address / illegal function, EVERY fuel: the run never returns -/
+theorem C20N_sensitive_no_post (ans : Nat → GoEval.Val × String) (client : GoEval.Val) (isCoil : Bool)
+    (a0 : Nat) (h0 : a0 ≤ 65535) (hnt : (ans a0).2 = symIDA ∨ (ans a0).2 = symIFN) (fuel : Nat) :
+    (exec (scanOracle ans) fuel (dropPost gs_cli_performBoolScan) (boolScanEnv client isCoil)).how
+      = .outOfFuel := by
+  have pre := boolScanEnv_pre client isCoil
+  have hnt' : isNotThere (ans a0).2 = true := by
+    rcases hnt with h | h <;> rw [h] <;> decide
+  rw [dropPost_boolScan]
+  show (execFrom _ fuel _ _ []).how = _
+  rw [← execFromW_const]
+  exact scanWith_diverges (scanWorld ans) (scanWorld_printf ans) "isCoil" nameCoil nameDI .u32 boolHeadNoPost
+    isCoil _ pre.flag pre.nameT pre.nameE pre.fStart
+    (fun n => boolNoPost_loop_diverges ans isCoil _ _ _ (pre.entry (by decide) (by decide) _) a0 h0 hnt' n) fuel
+
+/-- `addr < 0xffff` instead of `addr <= 0xffff` misses the last address -/
+theorem C20N_sensitive_lt :
+    let r := exec (scanOracle tinyAns) 40 (reBound 3 "<" gs_cli_performBoolScan) (boolScanEnv (.sym "client") true)
+    r.how = .returned ∧ requests r.calls = [rc 0, rc 1, rc 2] := by
+  refine ⟨?_, ?_⟩ <;> decide +kernel
+
 end Modbus.Props.C20
+
+#print axioms Modbus.Props.C20.C20N_shapes
+#print axioms Modbus.Props.C20.C20N_continue_rendering
+#print axioms Modbus.Props.C20.C20N_params
+#print axioms Modbus.Props.C20.C20N_boolScan
+#print axioms Modbus.Props.C20.C20N_scan_lines
+#print axioms Modbus.Props.C20.C20N_boolScan_u16_diverges
+#print axioms Modbus.Props.C20.C20N_registerScan
+#print axioms Modbus.Props.C20.C20N_unitIdScan
+#print axioms Modbus.Props.C20.C20N_unit_classes
+#print axioms Modbus.Props.C20.C20N_ping
+#print axioms Modbus.Props.C20.C20N_ping_round
+#print axioms Modbus.Props.C20.C20N_decodeString
+#print axioms Modbus.Props.C20.C20N_closes_gap
+#print axioms Modbus.Props.C20.C20N_small_run
+#print axioms Modbus.Props.C20.C20N_sensitive_stop_on_error
+#print axioms Modbus.Props.C20.C20N_sensitive_no_post_small
+#print axioms Modbus.Props.C20.C20N_sensitive_no_post
+#print axioms Modbus.Props.C20.C20N_sensitive_lt
